@@ -402,7 +402,11 @@ def check_commit_between(ctx, rng):
         prior = gen.rand_tree(rng, max_files=4, allow_odd=False)
         t1 = sc.put_tree(prior)
         link = rng.choice(LINKS)
-        sc.checkout(t1, [link], force=True)
+        r0 = sc.checkout(t1, [link], force=True)
+        if "err" in r0:
+            ctx.oracle(False, {"commit_between": {"prior": {"/".join(k): v.decode("latin1") for k, v in prior.items()}, "link": link}},
+                       {"why": "a forced checkout of a cached target into an empty workspace failed", "result": r0})
+            return
         # the user writes new contents (not in the cache) ...
         fresh = {}
         for k in sorted(prior)[: rng.randrange(1, len(prior) + 1)]:
